@@ -5,4 +5,32 @@ def run(ctx):
     b = finalize_proofs.run(ctx, "C05")
     from . import chunkreduce_proofs
 
-    return a + " " + b + " " + chunkreduce_proofs.run(ctx, "C05")
+    return a + " " + b + " " + chunkreduce_proofs.run(ctx, "C05") + _postprocess_numbagg(ctx)
+
+
+def _postprocess_numbagg(ctx):
+    import vlib.pyvc.prims as P
+
+    from ..contracts import postnumbagg as K
+    from ..pyvc.run import REPO_DIR, add_to_ctx
+
+    table, cs = K.all_postprocess(REPO_DIR)
+    if table is None:
+        ctx.fail_checker("aggregate_numbagg.DEFAULT_FILL_VALUE is no longer a literal table: the contract of _postprocess_numbagg cannot be instantiated")
+        return ""
+    orig = P.Prims.register_defaults
+
+    def reg(self):
+        orig(self)
+        K.register_models(self, table)
+
+    n = 0
+    P.Prims.register_defaults = reg
+    try:
+        for c in cs:
+            ex, obs = add_to_ctx(ctx, c, {})
+            n += len(obs)
+    finally:
+        P.Prims.register_defaults = orig
+    return (f" _postprocess_numbagg (nansum / nanprod / nanmax / a reduction without a kernel default; fill absent / symbolic): {n} obligations: seen groups keep the kernel's value, unseen groups get a fill "
+            "that differs from the kernel's default, nothing changes otherwise.")
